@@ -399,7 +399,7 @@ def run(ctx):
     explore(ctx, pre, body, ctx.share(1600 if ctx.quick else 20000), salt=1)
     cases = st.fixed_dictionaries({'kind': st.just('seq'), 'dom': st.sampled_from(list(DOMAINS)),
                                    'seq': st.lists(st.integers(0, 10**6), min_size=1, max_size=40)})
-    explore(ctx, cases, body, ctx.share(3200 if ctx.quick else 40000))
+    explore(ctx, cases, body, ctx.share(12000 if ctx.quick else 80000))
 
 
 def replay(case):
